@@ -203,7 +203,166 @@ impl<'a, W: Write> Emit<'a, W> {
 
 const FLS: [u16; 2] = [0x0000, 0xFFFF];
 
+
+/// flags of the 8086 for a 16-bit addition / subtraction, written here a second time (wide arithmetic): used only to
+/// FILTER the exhaustive scan — every pair on which the real function disagrees with it is handed to the model driver
+/// as an ordinary request, so a mistake here can at most produce requests that the driver then finds in order
+fn ref_word_arith(name: &str, fl: u16, a: u16, b: u16) -> (u16, u16) {
+    let c = (fl & 1) as u32;
+    let (a32, b32) = (a as u32, b as u32);
+    let (r, cf, of, af) = match name {
+        "add" | "adc" => {
+            let cin = if name == "adc" { c } else { 0 };
+            let s = a32 + b32 + cin;
+            let r = s as u16;
+            (r, s > 0xFFFF, ((a ^ r) & (b ^ r) & 0x8000) != 0, ((a ^ b ^ r) & 0x10) != 0)
+        }
+        _ => {
+            let cin = if name == "sbb" { c } else { 0 };
+            let r = a.wrapping_sub(b).wrapping_sub(cin as u16);
+            (r, a32 < b32 + cin, ((a ^ b) & (a ^ r) & 0x8000) != 0, ((a ^ b ^ r) & 0x10) != 0)
+        }
+    };
+    let pf = (r as u8).count_ones() % 2 == 0;
+    let mut f = fl & !0x08D5;
+    if cf { f |= 0x0001; }
+    if pf { f |= 0x0004; }
+    if af { f |= 0x0010; }
+    if r == 0 { f |= 0x0040; }
+    if r & 0x8000 != 0 { f |= 0x0080; }
+    if of { f |= 0x0800; }
+    (if name == "cmp" { a } else { r }, f)
+}
+
+/// EVERY pair of word operands x both carry-ins for ADD/ADC/SUB/SBB/CMP (2^32 pairs per pass): the real functions run
+/// on all of them; the pairs on which they differ from `ref_word_arith` (none on a correct tree) are emitted as ordinary
+/// `b16` requests for the model / spec verdict, followed by one `scan` line with the number of pairs covered
+fn run_wordx<W: Write>(thorough: bool, seed: u64, shard: u64, nshards: u64, out: &mut W) {
+    // quick tier: one sixteenth of the first operands (chosen by the seed), all second operands
+    let stride = if thorough { 1u32 } else { 16u32 };
+    let phase = if thorough { 0u32 } else { (seed % 16) as u32 };
+    let passes: [(&str, u16); 8] = [("add", 0x0000), ("adc", 0x0000), ("adc", 0xFFFF), ("sub", 0x0000), ("sbb", 0x0000), ("sbb", 0xFFFF), ("cmp", 0xFFFF), ("add", 0xFFFF)];
+    let mut scanned: u64 = 0;
+    let mut emitted = 0u64;
+    let mut vm = VM::new();
+    for (name, fl) in passes.iter() {
+        let f = b16(name).unwrap();
+        let mut a = (shard as u32) * stride + phase;
+        while a <= 0xFFFF {
+            for b in 0..=0xFFFFu32 {
+                vm.arch.flag = *fl;
+                let r = catch_unwind(AssertUnwindSafe(|| f(&mut vm, a as u16, b as u16)));
+                let (er, ef) = ref_word_arith(name, *fl, a as u16, b as u16);
+                let bad = match r {
+                    Ok(res) => {
+                        let got = if *name == "cmp" { a as u16 } else { res };
+                        got != er || vm.arch.flag != ef
+                    }
+                    Err(_) => {
+                        vm = VM::new();
+                        true
+                    }
+                };
+                if bad && emitted < 2000 {
+                    let req = format!("b16 {} {} {} {}", name, fl, a, b);
+                    let ans = answer(&req);
+                    writeln!(out, "{} => {}", req, ans).unwrap();
+                    emitted += 1;
+                }
+                scanned += 1;
+            }
+            a += (nshards as u32) * stride;
+        }
+    }
+    writeln!(out, "scan wordx {} => ok", scanned).unwrap();
+}
+
+/// the same exhaustive scan for the word logical instructions (defined flags only: CF=OF=0, SF/ZF/PF of the result;
+/// AF is left out of the filter) and for word MUL / IMUL (DX:AX and CF=OF only)
+fn run_wordx2<W: Write>(group: &str, thorough: bool, seed: u64, shard: u64, nshards: u64, out: &mut W) {
+    let stride = if thorough { 1u32 } else { 16u32 };
+    let phase = if thorough { 0u32 } else { (seed % 16) as u32 };
+    let mut scanned: u64 = 0;
+    let mut emitted = 0u64;
+    let mut vm = VM::new();
+    if group == "wordx_logic" {
+        for name in ["and", "or", "xor", "test"].iter() {
+            for fl in [0x0000u16, 0xFFFF].iter() {
+                let f = b16(name).unwrap();
+                let mut a = (shard as u32) * stride + phase;
+                while a <= 0xFFFF {
+                    for b in 0..=0xFFFFu32 {
+                        vm.arch.flag = *fl;
+                        let r = catch_unwind(AssertUnwindSafe(|| f(&mut vm, a as u16, b as u16)));
+                        let full = match *name { "and" | "test" => (a & b) as u16, "or" => (a | b) as u16, _ => (a ^ b) as u16 };
+                        let mut ef = fl & !0x08C5;
+                        if (full as u8).count_ones() % 2 == 0 { ef |= 4; }
+                        if full == 0 { ef |= 0x40; }
+                        if full & 0x8000 != 0 { ef |= 0x80; }
+                        let er = if *name == "test" { a as u16 } else { full };
+                        let bad = match r {
+                            Ok(res) => (if *name == "test" { a as u16 } else { res }) != er || (vm.arch.flag & !0x10) != (ef & !0x10),
+                            Err(_) => { vm = VM::new(); true }
+                        };
+                        if bad && emitted < 2000 {
+                            let req = format!("b16 {} {} {} {}", name, fl, a, b);
+                            let ans = answer(&req);
+                            writeln!(out, "{} => {}", req, ans).unwrap();
+                            emitted += 1;
+                        }
+                        scanned += 1;
+                    }
+                    a += (nshards as u32) * stride;
+                }
+            }
+        }
+    } else {
+        for name in ["mul", "imul"].iter() {
+            for fl in [0x0000u16, 0xFFFF].iter() {
+                let f = u16f(name).unwrap();
+                let mut a = (shard as u32) * stride + phase;
+                while a <= 0xFFFF {
+                    for b in 0..=0xFFFFu32 {
+                        vm.arch.flag = *fl;
+                        vm.arch.ax = a as u16;
+                        vm.arch.dx = 0x5A5A;
+                        let mut v = b as u16;
+                        let r = catch_unwind(AssertUnwindSafe(|| f(&mut vm, &mut v)));
+                        let (lo, hi, cof) = if *name == "mul" {
+                            let p = a * b;
+                            (p as u16, (p >> 16) as u16, (p >> 16) != 0)
+                        } else {
+                            let p = (a as u16 as i16 as i32) * (b as u16 as i16 as i32);
+                            (p as u16, ((p as u32) >> 16) as u16, p != (p as u16 as i16 as i32))
+                        };
+                        let bad = match r {
+                            Ok(Ok(())) => vm.arch.ax != lo || vm.arch.dx != hi || ((vm.arch.flag & 1) != 0) != cof || ((vm.arch.flag & 0x800) != 0) != cof,
+                            Ok(Err(_)) => true,
+                            Err(_) => { vm = VM::new(); true }
+                        };
+                        if bad && emitted < 2000 {
+                            let req = format!("u16 {} {} {} {} {}", name, fl, a, 0x5A5A, b);
+                            let ans = answer(&req);
+                            writeln!(out, "{} => {}", req, ans).unwrap();
+                            emitted += 1;
+                        }
+                        scanned += 1;
+                    }
+                    a += (nshards as u32) * stride;
+                }
+            }
+        }
+    }
+    writeln!(out, "scan {} {} => ok", group, scanned).unwrap();
+}
+
 pub fn run<W: Write>(group: &str, thorough: bool, seed: u64, shard: u64, nshards: u64, out: &mut W) {
+    if group == "wordx_logic" || group == "wordx_mul" {
+        return run_wordx2(group, thorough, seed, shard, nshards, out);
+    }
+    if group == "wordx" {
+        return run_wordx(thorough, seed, shard, nshards, out);
+    }
     let mut e = Emit { out, idx: 0, shard, nshards };
     let mut rng = Rng::new(seed ^ 0x1111);
     let lat = lattice16();
